@@ -48,6 +48,22 @@ ARO_TABLES = {"default": "default", "octet_rule": "octet_rule",
               "C2": {"C": 2, "N": 3, "O": 1, "S": 6, "F": 1, "N+1": 4, "?": 4}}
 
 
+def aromatic_variants(base):
+    """the skeleton and every form with one substituent (C, F, =O, O) written as a branch at any position the reader accepts"""
+    atoms = smiread.read_smiles(base)
+    variants = {base}
+    for sub in ("C", "F", "=O", "O"):
+        for pos in range(len(base) + 1):
+            cand = base[:pos] + "(" + sub + ")" + base[pos:]
+            try:
+                a2 = smiread.read_smiles(cand)
+            except smiread.SmiError:
+                continue
+            if len(a2) == len(atoms) + 1:
+                variants.add(cand)
+    return variants
+
+
 def multisets(max_total, max_items=99):
     out = []
     for n3 in range(0, max_total // 3 + 1):
@@ -284,21 +300,7 @@ def run(task):
     r = Result()
     last = None
     if arg[0] == "arom":
-        base = AROM[arg[1]]
-        atoms = smiread.read_smiles(base)
-        # one substituent after every aromatic atom (written as a branch directly after the atom's ring digits)
-        import re
-        toks = re.findall(r"\[[^\]]*\]|[a-zA-Z][a-z]?|[0-9%()=+\-#]", base)
-        variants = {base}
-        for sub in ("C", "F", "=O", "O"):
-            for pos in range(len(base) + 1):
-                cand = base[:pos] + "(" + sub + ")" + base[pos:]
-                try:
-                    a2 = smiread.read_smiles(cand)
-                except smiread.SmiError:
-                    continue
-                if len(a2) == len(atoms) + 1:
-                    variants.add(cand)
+        variants = aromatic_variants(AROM[arg[1]])
         for smi in sorted(variants):
             last = (smi, check_aromatic(smi, r))
         if last:
